@@ -659,7 +659,12 @@ func useDSL(args []any, d func()) []any {
 	}
 	ds, ok := args[len(args)-1].(func())
 	if ok {
-		newdsl := func() { ds(); d() }
+		newdsl := func() {
+			if ds != nil {
+				ds()
+			}
+			d()
+		}
 		args = append(args[:len(args)-1], newdsl)
 	} else {
 		args = append(args, d)
